@@ -67,10 +67,24 @@ def sl(v):
     return None if v == NONE else v
 
 
-def run_program(fp, path, df, rowcounts, prog, outcome):
+def run_program(fp, path, df, rowcounts, prog, outcome, src="path"):
     """execute the program on the real handle; return list of problems"""
     import pandas as pd
-    pf = fp.ParquetFile(path)
+    if src == "fileobj":
+        fobj = open(path, "rb")
+        try:
+            return _run_program(fp, fobj, path, df, rowcounts, prog, outcome)
+        finally:
+            fobj.close()
+    if src == "bytesio":
+        with open(path, "rb") as f0:
+            return _run_program(fp, io.BytesIO(f0.read()), path, df, rowcounts, prog, outcome)
+    return _run_program(fp, path, path, df, rowcounts, prog, outcome)
+
+
+def _run_program(fp, target, path, df, rowcounts, prog, outcome):
+    import pandas as pd
+    pf = fp.ParquetFile(target)
     starts = [sum(rowcounts[:i]) for i in range(len(rowcounts))]
     for st in prog[:-1] if outcome.get("kind") != "IndexError" else prog:
         op = st["op"]
@@ -85,6 +99,8 @@ def run_program(fp, path, df, rowcounts, prog, outcome):
                 pf = copy.copy(pf)
             elif op == "deepcopy":
                 pf = copy.deepcopy(pf)
+            elif op == "warm":
+                pf.to_pandas()
         except IndexError:
             return [] if outcome.get("kind") == "IndexError" else ["IndexError where the view has that row group"]
         except BaseException as e:  # noqa
@@ -160,11 +176,14 @@ def replay_chunk(args):
         for ci, c in enumerate(cases):
             for scheme, (path, df) in sets.items():
                 out["evals"] += 1
-                probs = run_program(fp, path, df, rowcounts, c["prog"], c["outcome"])
+                src = c.get("src", "path")
+                if src != "path" and os.path.isdir(path):
+                    continue
+                probs = run_program(fp, path, df, rowcounts, c["prog"], c["outcome"], src)
                 for p in probs:
                     ops = [st["op"] for st in c["prog"]]
                     neg = any(st["op"] == "slice" and st["k"] not in (NONE, 1, 2) for st in c["prog"])
-                    out["viol"].append(({"what": p, "ops": ops, "scheme": scheme, "negative_step": neg,
+                    out["viol"].append(({"what": p, "ops": ops, "scheme": scheme, "source": src, "negative_step": neg,
                                          "columns": "subset" if c["outcome"].get("cols") else "all"}, ci))
     except BaseException:  # noqa
         out["error"] = traceback.format_exc()
@@ -176,6 +195,7 @@ def replay_chunk(args):
 def export(work, tag, **consts):
     cfg = os.path.join(work, "acc-%s.cfg" % tag)
     c = {k: ("<- " + v if isinstance(v, str) else v) for k, v in consts.items()}
+    c.setdefault("Sources", "<- SrcPath")
     T.write_cfg(cfg, spec="Spec", constants=c, invariants=["ViewIsSubsequenceOfDataset", "Export"], check_deadlock=False)
     res = T.run_tlc("AccessMC", cfg, work, timeout=3000, coverage=True)
     if not res.completed:
@@ -205,7 +225,11 @@ def _run(ev, work, thorough):
     c2, r2 = export(work, "d2", RowCounts="RC4", SliceArgs="ArgsTiny", Steps="StepsFew", Derivations="DerivAll",
                     Reads="ReadsTwo", ColumnSets="ColsNone", MaxDepth=3 if thorough else 2)
     ev.add_tlc("Access: compositions of derivations", r2, programs=len(c2))
-    cases = c1 + c2
+    c3, r3 = export(work, "d3", RowCounts="RC4", SliceArgs="ArgsTiny", Steps="StepsFew", Derivations="DerivWarm",
+                    Reads="ReadsFour", ColumnSets="ColsFew", Sources="SrcAll", MaxDepth=2)
+    ev.add_tlc("Access: root handle opened from a path / an open file object / BytesIO, with earlier reads through the "
+               "same handle", r3, programs=len(c3))
+    cases = c1 + c2 + c3
     chunks = [cases[i::64] for i in range(64)]
     base = os.path.join(work, "acc")
     os.makedirs(base)
